@@ -21,6 +21,48 @@ from ..values import Lst, Pdu, Tup
 DH = "cfdppy.handler.dest.DestHandler"
 
 
+def _no_stored_pdu_requeued(prog, ev: Evidence) -> list[Finding]:
+    ev.rule("C06-R8", "every PDU queued for sending is constructed in the same function activation, never taken from the handler's or the transaction's stored state", 3)
+    out: list[Finding] = []
+    n = 0
+    for fi in prog.functions.values():
+        if fi.cls != DH:
+            continue
+        stored_locals: dict[str, str] = {}
+        for node in sorted((x for x in ast.walk(fi.node) if isinstance(x, (ast.For, ast.Assign, ast.Call))), key=lambda x: (x.lineno, x.col_offset)):
+            if isinstance(node, ast.For) and isinstance(node.target, ast.Name):
+                t = ast.unparse(node.iter)
+                if t.startswith(("self._params.", "self.")) and "(" not in t and not t.startswith("self._params.acked_params.lost_seg_tracker"):
+                    stored_locals[node.target.id] = t
+            elif isinstance(node, ast.Assign) and len(node.targets) == 1 and isinstance(node.targets[0], ast.Name):
+                t = ast.unparse(node.value)
+                if isinstance(node.value, (ast.Attribute, ast.Subscript)) and t.startswith(("self._params.", "self._")) and "pdu" in t.lower():
+                    stored_locals[node.targets[0].id] = t
+                else:
+                    stored_locals.pop(node.targets[0].id, None)
+            elif isinstance(node, ast.Call) and isinstance(node.func, ast.Attribute) and node.func.attr in ("_add_packet_to_be_sent",) or (
+                    isinstance(node, ast.Call) and isinstance(node.func, ast.Attribute) and node.func.attr == "append" and ast.unparse(node.func.value).endswith("_pdus_to_be_sent")):
+                if not node.args:
+                    continue
+                n += 1
+                arg = node.args[0]
+                root = arg
+                while isinstance(root, (ast.Attribute, ast.Subscript)):
+                    root = root.value
+                src_ = None
+                if isinstance(root, ast.Name) and root.id in stored_locals:
+                    src_ = stored_locals[root.id]
+                elif isinstance(root, ast.Name) and root.id == "self" and isinstance(arg, (ast.Attribute, ast.Subscript)):
+                    src_ = ast.unparse(arg)
+                ev.inst("C06-R8", f"{fi.name}: `{norm(node)[:70]}` queues " + ("a PDU taken from stored state " + src_ if src_ else "a PDU built in this activation"), "violation" if src_ else "ok", loc(fi, node))
+                if src_:
+                    out.append(Finding("C06-R8", f"{fi.qualname} | queues a stored PDU from {src_}",
+                                       f"`{norm(node)[:80]}` sends again a PDU object kept in {src_}: it describes the state of an earlier call (requests for data received meanwhile, a metadata request although the Metadata arrived)", loc(fi, node)))
+    if n == 0:
+        raise AnalysisError("no call queueing a PDU found in the destination handler (anchor vanished)")
+    return out
+
+
 def check(ctx: Ctx, ev: Evidence) -> list[Finding]:
     out: list[Finding] = []
     prog = ctx.prog
@@ -30,7 +72,16 @@ def check(ctx: Ctx, ev: Evidence) -> list[Finding]:
     ev.rule("C06-R4", "nothing missing => no NAK and completion; deferred NAKs only while something is recorded missing", 2)
     ev.rule("C06-R6", "a detected gap is recorded in the tracker whatever the NAK mode; file data before the Metadata records the whole extent from offset 0", 3)
     ev.rule("C06-R5", "EOF (no error): progress > EOF size declares the size fault, progress < EOF size records the tail gap", 2)
-    a = ctx.ats("dest")
+    # ---- R8 (syntax tree, before anything else): every PDU handed to the send queue was built in that call - a PDU object kept in
+    # the handler's or the transaction's state and queued again describes an EARLIER state of the reception
+    out += _no_stored_pdu_requeued(prog, ev)
+    try:
+        a = ctx.ats("dest")
+    except AnalysisError as exc_:
+        if not out:
+            raise
+        print(f"note: {exc_} - reported together with the violation(s) below")
+        return out
     h = a.h
     seen: set[str] = set()
 
